@@ -92,6 +92,16 @@ def _floor_base(t: Sym):
         return ("q" if t[2] == 0 else "r", x, d)
     if t[0] == "op" and t[1] in ("//", "%") and len(t) == 4:
         return ("q" if t[1] == "//" else "r", t[2], t[3])
+    # the normalised fields of a timedelta X (0 <= seconds < 86400, 0 <= microseconds < 10**6, days carries the sign):
+    # X.days * 86400 + X.seconds and X.microseconds are floor quotient and remainder of its microsecond total by 10**6
+    if t[0] == "a" and t[2] == "microseconds":
+        return ("r", ("op", "//", t[1], N("_1_microsecond")), C(10 ** 6))
+    if t[0] == "op" and t[1] == "+" and len(t) == 4:
+        for x, y in ((t[2], t[3]), (t[3], t[2])):
+            if y[0] == "a" and y[2] == "seconds" and x[0] == "op" and x[1] == "*" and len(x) == 4:
+                for u, w in ((x[2], x[3]), (x[3], x[2])):
+                    if u == ("a", y[1], "days") and w == C(86400):
+                        return ("q", ("op", "//", y[1], N("_1_microsecond")), C(10 ** 6))
     return None
 
 
@@ -148,6 +158,13 @@ def _same_sign_by_ranges(sec: Sym, nan: Sym, val) -> Optional[Tuple[str, str]]:
     neg = val.get(("op", "<", x, C(0)))
     if neg is None and val.get(("op", "<", C(-1), x)) is not None:
         neg = not val[("op", "<", C(-1), x)]
+    if neg is None and not is_abs:
+        # the floor quotient by a positive divisor is negative exactly when the numerator is
+        for k_, v_ in val.items():
+            if k_[0] == "op" and k_[1] == "<" and len(k_) == 4 and k_[3] == C(0) and _floor_base(k_[2]) == ("q", num, C(D)):
+                neg = bool(v_)
+            if k_[0] == "op" and k_[1] == ">=" and len(k_) == 4 and k_[3] == C(0) and _floor_base(k_[2]) == ("q", num, C(D)):
+                neg = not v_
     BIG = 10 ** 30
     if is_abs:
         if neg is None:
@@ -162,7 +179,7 @@ def _same_sign_by_ranges(sec: Sym, nan: Sym, val) -> Optional[Tuple[str, str]]:
     rr = (0, D - 1)
     r_term = ("item", ("call", N("divmod"), (num, C(D)), ()), 1)
     for k_, v_ in val.items():
-        if k_ in (r_term, ("op", "%", num, C(D))):
+        if k_ in (r_term, ("op", "%", num, C(D))) or _floor_base(k_) == ("r", num, C(D)):
             rr = (1, D - 1) if v_ else (0, 0)
         if k_[0] == "op" and k_[1] == "==" and len(k_) == 4 and k_[2] in (r_term, ("op", "%", num, C(D))) and k_[3] == C(0):
             rr = (0, 0) if v_ else (1, D - 1)
